@@ -6,9 +6,9 @@ CONSTANTS
   Buf = 2
   MaxTime = 5
   MaxEmit = 3
-  MaxNet = 2
-  MaxLearn = 2
   MaxClose = 1
+  StartBy = 1
+  InitData = TRUE
   Atomic = FALSE
 INIT Init
 NEXT Next
